@@ -5,7 +5,7 @@
    the chosen form members, the payment outcome), from the empty store — and, step-wise, from
    every state satisfying the invariant. *)
 From Coq Require Import ZArith NArith List Bool.
-From JK Require Import Base.AList Model.StorageFiles Proofs.StorageFilesProofs.
+From JK Require Import Base.AList Model.StorageFiles Proofs.StorageFilesProofs Corr.C17 Proofs.StorageFilesInvB.
 Import ListNotations.
 Open Scope Z_scope.
 
@@ -25,6 +25,20 @@ Print Assumptions C17_inv_step.
 Theorem C17_inv_all_histories : forall ops s, Inv s -> Inv (run s ops).
 Proof. exact inv_run. Qed.
 Print Assumptions C17_inv_all_histories.
+
+(* The correspondence (Corr/C17.v, c17_ok) evaluates the boolean [inv_b] on the pre- and the
+   post-state of every observed step of the real app.  It is sound for [Inv]: every observed
+   state on which it answered true is a state the step-wise theorems above (and those of C01)
+   speak about. *)
+Theorem C17_observed_states_satisfy_the_invariant : forall s, inv_b s = true -> Inv s.
+Proof. exact inv_b_sound. Qed.
+Print Assumptions C17_observed_states_satisfy_the_invariant.
+
+Theorem C17_accepted_steps_start_and_end_in_the_invariant :
+  forall pre o out_seen succ post paid,
+  c17_ok (Step pre o out_seen succ post paid) = true -> Inv (state_of pre) /\ Inv (state_of post).
+Proof. exact c17_ok_states_inv. Qed.
+Print Assumptions C17_accepted_steps_start_and_end_in_the_invariant.
 
 (* the property, spelled out on every reachable state *)
 
@@ -86,3 +100,11 @@ Example C17_demo_states :
   c17_view (run init c17_demo) =
     ([((100%N, 1%N, 5), []); ((100%N, 2%N, 5), [])], [], [(10%N, 2); (11%N, 0)]).
 Proof. vm_compute. split; reflexivity. Qed.
+
+(* non-vacuity of C17_observed_states_satisfy_the_invariant: the boolean answers true on the
+   states the demo history reaches (non-empty indexes, prover lists and proof records), and
+   false on a state whose by-owner index lost an entry *)
+Example C17_demo_inv_b :
+  inv_b (run init (firstn 11 c17_demo)) = true /\ inv_b (run init c17_demo) = true /\
+  inv_b (with_files (run init (firstn 11 c17_demo)) (files1 (run init (firstn 11 c17_demo))) []) = false.
+Proof. vm_compute. repeat split. Qed.
